@@ -220,7 +220,10 @@ class MessageManager(interfaces.TokenInterface, interfaces.MessageManager):
         duplicate message, store it."""
 
         key = (message.remote, message.mid)
-        if key in self._recent_messages:
+        # Only acknowledgements (piggybacked or empty ACKs, RSTs) answer a
+        # received message; other outgoing messages carry message IDs from our
+        # own ID space, which may collide with a recently received one.
+        if key in self._recent_messages and message.mtype in (ACK, RST):
             self._recent_messages[key] = message
 
     #
